@@ -24,8 +24,21 @@ RULE = ('per object kind and request an exhaustive value grid (all in-range valu
         'A case is distinct by (suite, op, outcome kind)')
 NOT_COVERED = [
     'the DSP-dependent decisions inside opus_encode_native (rate-dependent stereo/mode/bandwidth thresholds, detected '
-    'bandwidth, decide_fec, SILK internal rate, whether SILK turns a frame into DTX) are oracle parameters of the model: '
-    'the theorems hold for all their values, the implementation side of them is only searched (suites ctl-honour, ctl-rand)',
+    'bandwidth, decide_fec, whether SILK turns a frame into DTX) are oracle parameters of the model: the theorems hold '
+    'for all their values within the C types (OracleOk), the implementation side of them is only searched (suites '
+    'ctl-honour, ctl-rand). ONE oracle field is not free: silkBandwidth, the bandwidth a SILK-only packet signals for '
+    'SILK\'s internal rate. honour_bandwidth assumes SilkBwContract of it; honour_bandwidth_silk replaces the assumption '
+    'by the model of silk_control_audio_bandwidth (OpusModel/SilkBw.lean, tied by suites ctl-silkbw / ctl-silkbw-enc) '
+    'with these residuals: (R1) that opus_encode_native hands SILK the control inputs opusSilkIn computes from the '
+    'chain\'s mode/bandwidth (tied on the real encoder, not proved from a model of :2013-2045 inside step); (R2) the '
+    'history hypothesis that every SILK/hybrid frame since silk_InitEncoder had a chain bandwidth within the limit '
+    '(honour_bandwidth proves it per frame for the settings then in force; after a mid-stream lowering of the limit '
+    'SILK follows only when allow_bandwidth_switch/opusCanSwitch permit: silk_rate_down_switch); '
+    '(R3) allow_bandwidth_switch, opusCanSwitch and the number of frames between calls are universally quantified',
+    'ctl_inv takes encode calls as observed (encodeContract = none is a hypothesis, monitored by suite ctl-rand); the '
+    'assumption-free forms are ctl_inv_model (encode = EncDecide.step, any OracleOk oracle) and ctl_inv_skeleton (encode '
+    '= the C05 skeleton); their residual is FreeRange / FreeOk: voice_ratio in [-1,100], silk_mode.maxInternalSampleRate '
+    'in {8000,12000,16000}, useCBR in {0,1} after an encode call (fields written by analysis/SILK glue code not modelled)',
     'TOC-only packets emitted when the byte budget is below 3 bytes (opus_encoder.c:1267-1333) carry the mode/bandwidth/'
     'channel bits of the PREVIOUS frame state; only their duration is proved (honour_duration); they hold no coded audio '
     'and are treated like DTX packets by the honour clauses',
@@ -41,20 +54,21 @@ NOT_COVERED = [
 ASSUMPTIONS = [
     'a request number is always passed with the argument type its macro prescribes (anything else is undefined behaviour of '
     'the varargs protocol)',
-    'SILK reports an internal sampling rate not above the desired one (contract SilkBwContract of honour_bandwidth for '
-    'SILK-only packets; the resulting TOC bandwidth is checked on every packet by suite ctl-honour)',
+    'honour_bandwidth (not honour_bandwidth_silk): SILK reports an internal sampling rate not above the desired one '
+    '(contract SilkBwContract for SILK-only packets; the resulting TOC bandwidth is checked on every packet by suite '
+    'ctl-honour)',
     'opus_alloc is plain malloc (allocation failure is injected with ld --wrap=malloc)',
-    'encode calls inside a history satisfy the monitored contract Opus.Ctl.encodeContract / msEncodeContract (checked after '
-    'every call)',
+    'ctl_inv, ms_encode_keeps_inv: encode calls inside a history satisfy the monitored contract Opus.Ctl.encodeContract / '
+    'msEncodeContract (checked after every call); not assumed by ctl_inv_model / ctl_inv_skeleton',
     'the streams of a multistream / projection encoder are driven through the multistream object only: a caller who takes a '
     'stream with OPUS_MULTISTREAM_GET_ENCODER_STATE and sends it requests directly (e.g. OPUS_RESET_STATE on one stream) owns '
     'the consistency of the streams; such histories are outside MsInv and outside the check',
 ]
 REQUIRED_THEOREMS = ['OpusProps.C11.' + n for n in (
-    'set_get', 'set_get_decoder', 'set_get_multistream', 'bandwidth_reported_after_frame',
+    'set_get', 'set_get_decoder', 'set_get_multistream', 'set_get_ms_decoder', 'bandwidth_reported_after_frame',
     'reject_unchanged', 'application_locked_after_first_frame', 'reject_unchanged_decoder',
     'reject_unchanged_multistream', 'reject_unchanged_ms_decoder',
-    'constants_agree', 'ctl_inv', 'encode_never_changes_settings', 'ctl_inv_decoder', 'ctl_inv_multistream', 'ms_encode_keeps_inv', 'create_rejects', 'create_rejects_multistream', 'create_rejects_surround',
+    'constants_agree', 'ctl_inv', 'ctl_inv_model', 'ctl_inv_skeleton', 'encode_never_changes_settings', 'ctl_inv_decoder', 'ctl_inv_multistream', 'ms_encode_keeps_inv', 'create_rejects', 'create_rejects_multistream', 'create_rejects_surround',
     'create_rejects_projection', 'set_get_projection', 'reject_unchanged_projection',
     'frame_size_select_spec', 'int_ranges', 'honour_duration', 'honour_channels', 'honour_channels_midstream',
     'honour_bandwidth', 'silk_rate_inv', 'silk_rate_constant', 'silk_rate_down_switch',
